@@ -174,6 +174,12 @@ def _classify_bytes_source(fn, defs, idom, crate, op, blk, depth=0):
             sb, name = _static_of(fn, defs, t["args"][0], crate)
             if sb is not None:
                 return _all_ascii(sb), "sub-slice of all-ASCII static %s" % name
+        # a local helper returning a byte slice (`self.bool_text(v)`): every value it can return must qualify
+        tgt = crate.fn(t["callee"].get("resolved") or p) if t["callee"].get("resolved_crate", t["callee"].get("crate")) == crate.name else None
+        if tgt is not None and tgt is not fn and depth < 4 and tgt.local_ty(0).replace("&'static ", "&") in ("&[u8]", "&str"):
+            okr, dr = _classify_bytes_source(tgt, common.defs_of(tgt), cfg.dominators(tgt), crate,
+                                             {"c": "copy", "pl": {"l": 0, "p": []}}, 0, depth + 2)
+            return okr, "every return value of %s (%s)" % (p.rsplit("::", 1)[-1], dr)
         return False, "result of %s" % p
     if k == "agg":
         rv = o["rv"]
@@ -187,6 +193,14 @@ def _classify_bytes_source(fn, defs, idom, crate, op, blk, depth=0):
             return True, "array [" + ", ".join(descs) + "]"
         return False, "aggregate"
     if k == "place":
+        # a component of a tuple of slices chosen by a match: `let (first, second) = match .. { .. => (b":", name) }`
+        pl = o["pl"]
+        if len(pl["p"]) == 1 and isinstance(pl["p"][0], dict) and "f" in pl["p"][0] and "adt" not in pl["p"][0]:
+            i = pl["p"][0]["f"]
+            ds = defs.get(pl["l"], [])
+            if ds and all(si != "term" and d["k"] == "agg" and "adt" not in d and len(d["fields"]) > i for (_b, si, d) in ds):
+                res = [_classify_bytes_source(fn, defs, idom, crate, d["fields"][i], b, depth + 1) for (b, _si, d) in ds]
+                return all(x[0] for x in res), "one of: " + "; ".join(x[1] for x in res)
         return False, "place"
     return False, k
 
@@ -198,6 +212,18 @@ def _classify_elem(fn, defs, idom, crate, op, blk):
     o = common.origin(fn, defs, op)
     if o["k"] == "place":
         pl = o["pl"]
+        # the item of `for x in [a, b, c]`: every element of the iterated array must qualify
+        ds = defs.get(pl["l"], [])
+        if len(ds) == 1 and ds[0][1] == "term" and "std::iter::Iterator::next" in F.callee_names(ds[0][2]) \
+                and any(isinstance(e, dict) and e.get("n") == "Some" for e in pl["p"]):
+            it = common.origin(fn, defs, ds[0][2]["args"][0])
+            if it["k"] == "place" and not [e for e in it["pl"]["p"] if e != "*"]:
+                it = common.origin(fn, defs, {"c": "copy", "pl": {"l": it["pl"]["l"], "p": []}})
+            if it["k"] == "call" and "std::iter::IntoIterator::into_iter" in F.callee_names(it["t"]):
+                arr = common.origin(fn, defs, it["t"]["args"][0])
+                if arr["k"] == "agg" and arr["rv"].get("agg") == "array":
+                    res = [_classify_elem(fn, defs, idom, crate, f, blk) for f in arr["rv"]["fields"]]
+                    return all(x[0] for x in res), "item of [" + ", ".join(x[1] for x in res) + "]"
         # STATIC[idx]
         base = {"c": "copy", "pl": {"l": pl["l"], "p": []}}
         sb, name = _static_of(fn, defs, base, crate)
@@ -212,6 +238,11 @@ def _classify_elem(fn, defs, idom, crate, op, blk):
         return False, "`as u8` of an unguarded value"
     if o["k"] == "param" and fn.local_ty(o["l"]) == "u8":
         return False, "u8 parameter"
+    # computed digit / letter: `b'0' + (octet >> 3 & 7)` - a sound upper bound below 0x80 keeps it ASCII
+    from .. import panics
+    ub = panics.upper_bound(fn, defs, op, 0)
+    if ub is not None and ub < 0x80:
+        return True, "value bounded by %d" % ub
     return False, o["k"]
 
 
